@@ -387,7 +387,7 @@ func init() {
 		ID:    "C14",
 		Level: "fault_enumeration",
 		Rule: "(i) a request that cannot be serialised is placed at EVERY action position (check and sequence actions) of every grammar shape: Create must fail, leave the row counts of all five tables unchanged (sqlite), the plan unreadable, an unrelated plan untouched, and the repaired plan with the SAME ids must then be creatable and read back equal (API-level orphan detector); " +
-			"(ii) process kill at every write-class system call of a real Submit on a file-backed store (strace fault injection, see the evidence notes); (iii) ALL sequences up to depth 4 (6) over {Create, Create again with an altered copy, Delete, Read} x 3 plans of different shapes against a reference set of live plans: duplicate create fails and changes nothing, " +
+			"(ii) process kill at every write-class system call of a real Submit, and of the Delete of the same plan after it, on a file-backed store (strace fault injection, see the evidence notes); (iii) ALL sequences up to depth 4 (6) over {Create, Create again with an altered copy, Delete, Read} x 3 plans of different shapes against a reference set of live plans: duplicate create fails and changes nothing, " +
 			"delete removes exactly that plan, per-table row counts equal the objects of the live plans; both vaults where the CosmosDB fake is available, and sqlite once more on a FILE (WAL, the connection pool the store uses for files); distinct_nontrivial = fault positions plus operation sequences longer than one",
 		Assumptions: []string{"process death, not power loss: no torn pages", "CosmosDB over the package's fake only (single client calls are not cut there)"},
 		Items:       func(tier string) []WorkItem { return append(shardItems("C14", 16), killItems(tier)...) },
@@ -396,9 +396,13 @@ func init() {
 			var in struct {
 				Fault *createFaultCase `json:"fault"`
 				Crud  *crudCase        `json:"crud"`
+				Kill  *int             `json:"kill"`
 			}
 			if err := jsonUnmarshal(raw, &in); err != nil {
 				return []*Violation{{Property: "C14", Rule: "bad-input", Msg: err.Error()}}
+			}
+			if in.Kill != nil {
+				return replayKill("C14", *in.Kill)
 			}
 			var r, s, m string
 			switch {
